@@ -20,6 +20,7 @@ import (
 	"errors"
 	"fmt"
 	"io"
+	"math"
 	"net/http"
 	"net/url"
 	"strconv"
@@ -498,6 +499,14 @@ func (o *operation) validate(transcoder *Transcoder) error {
 
 	o.isValid = true // Successfully validated!
 	return nil
+}
+
+// maxMessageSize is the configured limit for buffering a single message.
+func (o *operation) maxMessageSize() int64 {
+	if o.methodConf == nil || o.methodConf.serviceOptions == nil {
+		return math.MaxInt64 - 1
+	}
+	return int64(o.methodConf.maxMsgBufferBytes)
 }
 
 func (o *operation) queryValues() url.Values {
@@ -1673,7 +1682,7 @@ func (w *envelopingWriter) handleTrailer() error {
 	if w.trailerIsCompressed && data.Len() > 0 {
 		uncompressed := w.rw.op.bufferPool.Get()
 		defer w.rw.op.bufferPool.Put(uncompressed)
-		if err := w.rw.op.server.respCompression.decompress(uncompressed, data); err != nil {
+		if err := w.rw.op.server.respCompression.decompressLimited(uncompressed, data, int64(w.rw.op.methodConf.maxMsgBufferBytes)); err != nil {
 			w.rw.reportError(err)
 			w.err = err
 			return err
@@ -1812,7 +1821,7 @@ func (w *transformingWriter) flushMessage() error {
 		if w.latestEnvelope.compressed && w.buffer.Len() > 0 {
 			data = w.rw.op.bufferPool.Get()
 			defer w.rw.op.bufferPool.Put(data)
-			if err := w.rw.op.server.respCompression.decompress(data, w.buffer); err != nil {
+			if err := w.rw.op.server.respCompression.decompressLimited(data, w.buffer, int64(w.rw.op.methodConf.maxMsgBufferBytes)); err != nil {
 				return err
 			}
 		}
@@ -1900,7 +1909,7 @@ func (e *errorWriter) Close() error {
 	if compressPool := e.rw.op.server.respCompression; compressPool != nil && body.Len() > 0 {
 		uncompressed := bufferPool.Get()
 		defer bufferPool.Put(uncompressed)
-		if err := compressPool.decompress(uncompressed, body); err != nil {
+		if err := compressPool.decompressLimited(uncompressed, body, int64(e.rw.op.methodConf.maxMsgBufferBytes)); err != nil {
 			// can't really just return an error; we have to encode the
 			// error into the RPC response, so we populate respMeta.end
 			if e.respMeta.end.httpCode == 0 || e.respMeta.end.httpCode == http.StatusOK {
@@ -2171,7 +2180,7 @@ func (m *message) decompress(op *operation) error {
 		return nil
 	}
 	tmp := op.bufferPool.Get()
-	if err := pool.decompress(tmp, m.buf); err != nil {
+	if err := pool.decompressLimited(tmp, m.buf, op.maxMessageSize()); err != nil {
 		op.bufferPool.Put(tmp)
 		return err
 	}
@@ -2254,6 +2263,11 @@ func (m *message) encode(op *operation) error {
 	if err != nil {
 		op.bufferPool.Put(buf)
 		return err
+	}
+	if limit := op.maxMessageSize(); int64(len(data)) > limit {
+		// The re-encoded form counts against the limit, too.
+		op.bufferPool.Put(buf)
+		return bufferLimitError(limit)
 	}
 	op.bufferPool.Put(m.buf)
 	m.buf = op.bufferPool.Wrap(data, buf)
